@@ -37,7 +37,7 @@ def eval_map(xp, P, a, x, b, scale=1.0, shift=0.0):
     return y
 
 
-SHAPES = [(), (1,), (3,), (2, 3), (1, 2), (2, 1, 2), (2, 2, 2), (4,)]
+SHAPES = [(), (1,), (3,), (2, 3), (1, 2), (2, 1, 2), (2, 2, 2), (4,), (2, 2), (3, 3)]
 
 
 def run_case(res, case):
@@ -180,6 +180,20 @@ def run_case(res, case):
                     if abs(float(r[1 - k]) - fdo) > 1e-5 * (1 + abs(fdo)):
                         return viol("wrong_value", "grad argnum=%r entry for arg %d: %r vs %r" % (argn, other, r[1 - k], fdo), "grad:" + form)
             ops_checked.append("grad:tuple/list")
+            # a function of ONE positional argument selected through a one-element tuple / list (no keywords):
+            # the container form of the result and of the (co)tangents must not depend on the arity
+            for form, argn in (("tuple", (0,)), ("list", [0])):
+                r = grad(Lx, argn)(x0)
+                vr = value_and_grad(Lx, argn)(x0)
+                if not (isinstance(r, tuple) and len(r) == 1 and isinstance(vr[1], tuple) and len(vr[1]) == 1):
+                    return viol("wrong_structure", "grad / value_and_grad of a one-argument function with argnum=%r returned %r / %r" % (argn, type(r), type(vr[1])), "grad:single_arg_" + form)
+                if not close(r[0], gexp) or not close(vr[1][0], gexp):
+                    return viol("wrong_value", "grad of a one-argument function with argnum=%r deviates" % (argn,), "grad:single_arg_" + form)
+                vt1 = rng.standard_normal(in_shape)
+                jv = make_jvp(fx, argn)(x0)((vt1,))[1]
+                if onp.shape(jv) != out_shape or not close(jv, onp.tensordot(Jt, vt1, axes=len(in_shape)), tolJ * (1.0 + float(onp.sum(onp.abs(vt1))))):
+                    return viol("wrong_value" if onp.shape(jv) == out_shape else "wrong_shape", "make_jvp of a one-argument function with argnum=%r: tangent shape %s" % (argn, onp.shape(jv)), "make_jvp:single_arg_" + form)
+            ops_checked.append("grad:single_arg_tuple/list")
 
             def named(a, x, b):
                 return L_ag(a, x, b, scale=scale)
@@ -194,7 +208,38 @@ def run_case(res, case):
             def named_kw(a, x, b, scale=1.0, shift=0.0):
                 return anp.sum(w * f_ag(a, x, b, scale=scale, shift=shift))
 
+            class _Model:
+                """the same function as a bound method, a class method and a callable object: the caller
+                never passes the implicit first parameter, so it is not among the positions"""
+
+                def loss(self, a, x, b):
+                    return L_ag(a, x, b, scale=scale)
+
+                @classmethod
+                def closs(cls, a, x, b):
+                    return L_ag(a, x, b, scale=scale)
+
+                @staticmethod
+                def sloss(a, x, b):
+                    return L_ag(a, x, b, scale=scale)
+
+                def __call__(self, a, x, b):
+                    return L_ag(a, x, b, scale=scale)
+
+            def _with_lead(f):
+                @functools.wraps(f)
+                def wrapper(lead, a, x, b):
+                    return lead * f(a, x, b)
+
+                return wrapper
+
+            _m = _Model()
             for label, fun_, args_, kw_ in (
+                ("bound_method", _m.loss, (a0, x0, b0), {}),
+                ("class_method", _Model.closs, (a0, x0, b0), {}),
+                ("static_method", _m.sloss, (a0, x0, b0), {}),
+                ("callable_object", _m, (a0, x0, b0), {}),
+                ("wraps_decorated_extra_leading", _with_lead(named), (1.0, a0, x0, b0), {}),
                 ("partial_positional", functools.partial(named, a0), (x0, b0), {}),
                 ("partial_keyword", functools.partial(named, b=b0), (a0, x0), {}),
                 ("partial_keyword_scale", functools.partial(named_kw, scale=scale), (a0, x0, b0), {}),
@@ -459,6 +504,9 @@ def holomorphic_cases(res, rng):
 def make_case(rng, i):
     ins = SHAPES[int(rng.integers(0, len(SHAPES)))]
     outs = SHAPES[int(rng.integers(0, len(SHAPES)))]
+    if i < 3 * len(SHAPES) ** 2:
+        # every (input shape, output shape) pair at least three times (once per argument form), then random pairs
+        ins, outs = SHAPES[(i // 3) % len(SHAPES)], SHAPES[(i // 3) // len(SHAPES)]
     P = make_map(rng, ins, outs)
     x = rng.uniform(0.2, 1.0, size=ins) * rng.choice([-1.0, 1.0], size=ins)
     xkind = "array"
